@@ -214,6 +214,13 @@ func (g *FnGen) applyContract(s *State, fc *FuncContract, ct *callTarget, args [
 	if fc.Pure && fc.Fresh {
 		panic(genErr("contract of %s is both pure and fresh: a pure callee allocates nothing (contradictory assumption)", ct.key))
 	}
+	if fc.Pure {
+		for _, e := range fc.Ensures {
+			if strings.Contains(e.Src, "fresh(") && !strings.Contains(e.Src, "!fresh(") {
+				panic(genErr("contract of %s is pure but promises a fresh object (%s): a pure callee allocates nothing (contradictory assumption)", ct.key, strings.TrimSpace(e.Src)))
+			}
+		}
+	}
 	if !fc.Pure {
 		n := g.fresh("next", "Int")
 		g.assume(s, app(">=", n, s.next))
